@@ -291,11 +291,11 @@ def explore(repo, body, typed=True, max_paths=4096, intercept=None):
     import os
     import time
     out, stack = [], [[]]
-    t0, budget = time.time(), float(os.environ.get('TTSA_SCENARIO_BUDGET', '60'))
+    t0, budget = time.process_time(), float(os.environ.get('TTSA_SCENARIO_BUDGET', '150'))          # CPU seconds: independent of the machine's load
     while stack:
         ch = stack.pop()
-        if time.time() - t0 > budget:
-            raise AnalysisError(f'one scenario needs more than {budget:.0f} s ({len(out)} paths explored, {len(stack) + 1} pending): too many data-dependent tests on its paths')
+        if time.process_time() - t0 > budget:
+            raise AnalysisError(f'one scenario needs more than {budget:.0f} CPU seconds ({len(out)} paths explored, {len(stack) + 1} pending): too many data-dependent tests on its paths')
         sc = Scenario(repo, typed=typed, choices=ch, intercept=intercept)
         try:
             res = body(sc)
